@@ -1,4 +1,300 @@
+/-
+Property C13 — file-system resource: the three stamping routes of the `ExistsChecker`,
+`ModifiedChecker` and `HashChecker` agree, a check against a stamp is consistent exactly while the
+observed aspect is unchanged, stamping a reader leaves it at the start, and opening for writing
+creates/truncates files and refuses directories.
+
+All statements hold for ALL path states, byte strings and directory listings (no bounds).  The hash
+(SHA-256 in the Rust code) is the parameter `hash`; only the theorems that need it assume
+injectivity (`hinj`).  For the hash checker a change of kind between file and directory is *not*
+claimed to be detected (see `C13_hash_kind_change_undetected` for why), and for directories only
+"untouched ⇒ consistent" and "different name list ⇒ inconsistent" are claimed.
+-/
 import PieModel.Lib.FileRes
+import PieModel.Lib.FileResLemmas
+
 namespace PieModel
-theorem C13_placeholder : True := trivial
+open FileRes
+
+/-! ## ExistsChecker -/
+
+/-- stamping from a fresh reader and from a just-used writer give the stamp made from the path -/
+theorem C13_exists_routes_agree (st : PathSt) :
+    (existsStampReader (openRead st)).1 = existsStamp st ∧ existsStampWriter st = existsStamp st :=
+  ⟨rfl, rfl⟩
+
+theorem C13_exists_reflexive (st : PathSt) : existsCheck st (existsStamp st) = true := by
+  simp [existsCheck, existsStamp]
+
+theorem C13_exists_iff (st st' : PathSt) :
+    existsCheck st' (existsStamp st) = true ↔ exists_ st' = exists_ st := by
+  simp [existsCheck, existsStamp]
+
+theorem C13_exists_detects_change (st st' : PathSt) (h : exists_ st' ≠ exists_ st) :
+    existsCheck st' (existsStamp st) = false := by
+  simpa [existsCheck, existsStamp] using h
+
+/-- creation and removal are both detected, whatever was created / removed -/
+theorem C13_exists_detects_create_remove (st : PathSt) (h : st ≠ .absent) :
+    existsCheck st (existsStamp .absent) = false ∧ existsCheck .absent (existsStamp st) = false := by
+  cases st <;> simp_all [existsCheck, existsStamp, exists_]
+
+/-- the exists route does not move the reader -/
+theorem C13_exists_reader_unmoved (r : OpenRead) : (existsStampReader r).2 = r := rfl
+
+/-! ## ModifiedChecker -/
+
+theorem C13_modified_routes_agree (st : PathSt) :
+    (modifiedStampReader (openRead st)).1 = modifiedStamp st ∧
+      modifiedStampWriter st = modifiedStamp st :=
+  ⟨rfl, rfl⟩
+
+theorem C13_modified_reflexive (st : PathSt) : modifiedCheck st (modifiedStamp st) = true := by
+  simp [modifiedCheck, modifiedStamp]
+
+theorem C13_modified_iff (st st' : PathSt) :
+    modifiedCheck st' (modifiedStamp st) = true ↔ mtime st' = mtime st := by
+  simp [modifiedCheck, modifiedStamp]
+
+theorem C13_modified_detects_change (st st' : PathSt) (h : mtime st' ≠ mtime st) :
+    modifiedCheck st' (modifiedStamp st) = false := by
+  simpa [modifiedCheck, modifiedStamp] using h
+
+/-- a different modification time of a file or directory is detected, and so is creation/removal -/
+theorem C13_modified_detects_touch (c c' : List Nat) (ns ns' : List (List Nat)) (t t' : Nat)
+    (h : t' ≠ t) :
+    modifiedCheck (.file c' t') (modifiedStamp (.file c t)) = false ∧
+    modifiedCheck (.dir ns' t') (modifiedStamp (.dir ns t)) = false ∧
+    modifiedCheck .absent (modifiedStamp (.file c t)) = false ∧
+    modifiedCheck (.file c t) (modifiedStamp .absent) = false := by
+  simp [modifiedCheck, modifiedStamp, mtime, h]
+
+/-- the modified route does not move the reader -/
+theorem C13_modified_reader_unmoved (r : OpenRead) : (modifiedStampReader r).2 = r := rfl
+
+/-! ## HashChecker -/
+
+section Hash
+variable (hash : List Nat → Nat)
+
+/-- the reader route of the hash checker: the stamp, for an arbitrary reader -/
+theorem C13_hash_reader_stamp (r : OpenRead) :
+    (hashStampReader hash r).1 =
+      match r.st with
+      | .file c _ => some (hash (c.drop r.pos))
+      | st => hashOf hash st := by
+  obtain ⟨st, pos⟩ := r
+  cases st <;> simp [hashStampReader, OpenRead.readToEnd]
+
+theorem C13_hash_routes_agree (st : PathSt) :
+    (hashStampReader hash (openRead st)).1 = hashStamp hash st ∧
+      hashStampWriter hash st = hashStamp hash st := by
+  refine ⟨?_, rfl⟩
+  cases st <;>
+    simp [hashStampReader, openRead, OpenRead.readToEnd, hashStamp, hashOf, List.drop_zero]
+
+theorem C13_hash_reflexive (st : PathSt) : hashCheck hash st (hashStamp hash st) = true := by
+  simp [hashCheck, hashStamp]
+
+/-- general form: the check compares the hashed aspect (`hashOf`) -/
+theorem C13_hash_iff (st st' : PathSt) :
+    hashCheck hash st' (hashStamp hash st) = true ↔ hashOf hash st' = hashOf hash st := by
+  simp [hashCheck, hashStamp]
+
+/-- files: consistent iff the content is the same (the modification time is irrelevant) -/
+theorem C13_hash_file_iff (hinj : ∀ a b, hash a = hash b → a = b)
+    (c c' : List Nat) (t t' : Nat) :
+    hashCheck hash (.file c' t') (hashStamp hash (.file c t)) = true ↔ c' = c := by
+  simp only [hashCheck, hashStamp, hashOf, beq_iff_eq, Option.some.injEq]
+  exact ⟨hinj c' c, fun h => by rw [h]⟩
+
+/-- absent against anything, and anything against absent: consistent iff both absent -/
+theorem C13_hash_absent_iff (st : PathSt) :
+    (hashCheck hash .absent (hashStamp hash st) = true ↔ st = .absent) ∧
+    (hashCheck hash st (hashStamp hash .absent) = true ↔ st = .absent) := by
+  cases st <;> simp [hashCheck, hashStamp, hashOf]
+
+/-- the NUL-terminated listing is injective on NUL-free names (key lemma, re-exported) -/
+theorem C13_dirBytes_injective (ns ns' : List (List Nat))
+    (hns : ∀ n ∈ ns, 0 ∉ n) (hns' : ∀ n ∈ ns', 0 ∉ n) (h : dirBytes ns = dirBytes ns') :
+    ns = ns' :=
+  dirBytes_injective ns ns' hns hns' h
+
+/-- directories: consistent iff the list of entry names is the same (names contain no NUL byte) -/
+theorem C13_hash_dir_names (hinj : ∀ a b, hash a = hash b → a = b)
+    (ns ns' : List (List Nat)) (t t' : Nat)
+    (hns : ∀ n ∈ ns, 0 ∉ n) (hns' : ∀ n ∈ ns', 0 ∉ n) :
+    hashCheck hash (.dir ns' t') (hashStamp hash (.dir ns t)) = true ↔ ns' = ns := by
+  simp only [hashCheck, hashStamp, hashOf, beq_iff_eq, Option.some.injEq]
+  exact ⟨fun h => dirBytes_injective ns' ns hns' hns (hinj _ _ h), fun h => by rw [h]⟩
+
+theorem C13_hash_detects_change (hinj : ∀ a b, hash a = hash b → a = b)
+    (c c' : List Nat) (t t' : Nat) (h : c' ≠ c) :
+    hashCheck hash (.file c' t') (hashStamp hash (.file c t)) = false := by
+  exact Bool.eq_false_iff.mpr fun hc => h ((C13_hash_file_iff hash hinj c c' t t').mp hc)
+
+theorem C13_hash_dir_detects_change (hinj : ∀ a b, hash a = hash b → a = b)
+    (ns ns' : List (List Nat)) (t t' : Nat)
+    (hns : ∀ n ∈ ns, 0 ∉ n) (hns' : ∀ n ∈ ns', 0 ∉ n) (h : ns' ≠ ns) :
+    hashCheck hash (.dir ns' t') (hashStamp hash (.dir ns t)) = false := by
+  exact Bool.eq_false_iff.mpr fun hc =>
+    h ((C13_hash_dir_names hash hinj ns ns' t t' hns hns').mp hc)
+
+/-- creation and removal are detected by the hash checker (no injectivity needed) -/
+theorem C13_hash_detects_create_remove (st : PathSt) (h : st ≠ .absent) :
+    hashCheck hash st (hashStamp hash .absent) = false ∧
+    hashCheck hash .absent (hashStamp hash st) = false := by
+  cases st <;> simp_all [hashCheck, hashStamp, hashOf]
+
+/-- Why a change of kind is not claimed: a directory replaced by a *file* whose content is exactly
+the NUL-terminated listing of that directory has the same hash, for every `hash`. -/
+theorem C13_hash_kind_change_undetected (ns : List (List Nat)) (t t' : Nat) :
+    hashCheck hash (.file (dirBytes ns) t') (hashStamp hash (.dir ns t)) = true := by
+  simp [hashCheck, hashStamp, hashOf]
+
+/-! ## The reader is left at the start -/
+
+theorem C13_stamp_reader_rewinds (r : OpenRead) :
+    (hashStampReader hash r).2.pos = 0 ∧ (hashStampReader hash r).2.st = r.st := by
+  obtain ⟨st, pos⟩ := r
+  cases st <;> simp [hashStampReader, OpenRead.readToEnd, OpenRead.rewind]
+
+/-- after stamping a fresh reader of a file, the task reads the full content -/
+theorem C13_stamp_reader_then_full_read (c : List Nat) (t : Nat) :
+    ((hashStampReader hash (openRead (.file c t))).2.readToEnd).1 = c := by
+  simp [hashStampReader, openRead, OpenRead.readToEnd, OpenRead.rewind]
+
+/-- more generally: after stamping ANY reader of a file (even one already read to some position),
+the next full read yields the full content -/
+theorem C13_stamp_reader_then_full_read_any (r : OpenRead) (c : List Nat) (t : Nat)
+    (h : r.st = .file c t) :
+    ((hashStampReader hash r).2.readToEnd).1 = c := by
+  obtain ⟨st, pos⟩ := r
+  cases h
+  simp [hashStampReader, OpenRead.readToEnd, OpenRead.rewind]
+
+/-- a stamped fresh reader is again a fresh reader -/
+theorem C13_stamp_reader_fresh (st : PathSt) :
+    (hashStampReader hash (openRead st)).2 = openRead st := by
+  cases st <;> simp [hashStampReader, openRead, OpenRead.readToEnd, OpenRead.rewind]
+
+end Hash
+
+/-! ## Writing -/
+
+theorem C13_write_refuses_dir (ns : List (List Nat)) (t now : Nat) :
+    openWrite (.dir ns t) now = .error .alreadyExists := rfl
+
+theorem C13_write_creates_or_truncates (st : PathSt) (now : Nat)
+    (h : st = .absent ∨ ∃ c t, st = .file c t) :
+    openWrite st now = .ok (.file [] now) := by
+  rcases h with h | ⟨c, t, h⟩ <;> subst h <;> rfl
+
+/-- exact characterisation of the writer's outcome -/
+theorem C13_write_ok_iff (st : PathSt) (now : Nat) :
+    (∃ st', openWrite st now = .ok st') ↔ ∀ ns t, st ≠ .dir ns t := by
+  cases st <;> simp [openWrite]
+
+/-- after a successful write, all three checkers stamp the truncated file via the writer route
+exactly as from the path, and the checks are consistent -/
+theorem C13_write_then_stamp (hash : List Nat → Nat) (st st' : PathSt) (now : Nat)
+    (h : openWrite st now = .ok st') :
+    st' = .file [] now ∧
+    existsStampWriter st' = true ∧ modifiedStampWriter st' = some now ∧
+    hashStampWriter hash st' = some (hash []) ∧
+    existsCheck st' (existsStampWriter st') = true ∧
+    modifiedCheck st' (modifiedStampWriter st') = true ∧
+    hashCheck hash st' (hashStampWriter hash st') = true := by
+  cases st <;> simp [openWrite] at h <;> subst h <;>
+    simp [existsStampWriter, modifiedStampWriter, hashStampWriter, existsCheck, modifiedCheck,
+      hashCheck, exists_, mtime, hashOf]
+
+/-! ## Non-vacuity: concrete data -/
+
+section Examples
+
+/-- executable stand-in for SHA-256 in the examples -/
+private def h0 : List Nat → Nat := fun l => l.foldl (fun a x => a * 257 + x + 1) 7
+
+private def f3 : PathSt := .file [104, 105, 33] 1000          -- "hi!"
+private def f3' : PathSt := .file [104, 105, 63] 1000         -- "hi?", same mtime
+private def f3t : PathSt := .file [104, 105, 33] 2000         -- touched
+private def f0 : PathSt := .file [] 5                         -- empty file
+private def d2 : PathSt := .dir [[97], [98]] 300              -- {"a", "b"}
+private def d1 : PathSt := .dir [[97, 98]] 300                -- {"ab"}
+private def d0 : PathSt := .dir [] 300                        -- empty directory
+
+-- routes agree
+example : (existsStampReader (openRead f3)).1 = true ∧ existsStampWriter f3 = true ∧
+    existsStamp f3 = true := by decide
+example : (existsStampReader (openRead .absent)).1 = false ∧ existsStamp .absent = false := by
+  decide
+example : (modifiedStampReader (openRead d2)).1 = some 300 ∧ modifiedStampWriter d2 = some 300 ∧
+    modifiedStamp d2 = some 300 := by decide
+example : (hashStampReader h0 (openRead f3)).1 = hashStamp h0 f3 ∧
+    hashStampWriter h0 f3 = hashStamp h0 f3 ∧ (hashStamp h0 f3).isSome = true := by decide
+example : (hashStampReader h0 (openRead d2)).1 = hashStamp h0 d2 ∧
+    (hashStamp h0 d2).isSome = true := by decide
+example : (hashStampReader h0 (openRead .absent)).1 = none ∧ hashStamp h0 .absent = none := by
+  decide
+-- the reader route needs a reader at the start: a reader at position 1 stamps only the rest
+example : (hashStampReader h0 { st := f3, pos := 1 }).1 = some (h0 [105, 33]) ∧
+    (hashStampReader h0 { st := f3, pos := 1 }).1 ≠ hashStamp h0 f3 := by decide
+
+-- untouched ⇒ consistent
+example : existsCheck f3 (existsStamp f3) = true ∧ existsCheck d2 (existsStamp d2) = true ∧
+    existsCheck .absent (existsStamp .absent) = true := by decide
+example : modifiedCheck f3 (modifiedStamp f3) = true ∧ modifiedCheck d0 (modifiedStamp d0) = true ∧
+    modifiedCheck .absent (modifiedStamp .absent) = true := by decide
+example : hashCheck h0 f3 (hashStamp h0 f3) = true ∧ hashCheck h0 f0 (hashStamp h0 f0) = true ∧
+    hashCheck h0 d2 (hashStamp h0 d2) = true ∧ hashCheck h0 d0 (hashStamp h0 d0) = true ∧
+    hashCheck h0 .absent (hashStamp h0 .absent) = true := by decide
+
+-- changes are detected (both sides of the characterisations occur)
+example : existsCheck .absent (existsStamp f3) = false ∧ existsCheck d2 (existsStamp .absent) = false ∧
+    existsCheck d2 (existsStamp f3) = true := by decide
+example : modifiedCheck f3t (modifiedStamp f3) = false ∧ modifiedCheck f3' (modifiedStamp f3) = true ∧
+    modifiedCheck .absent (modifiedStamp f3) = false := by decide
+example : hashCheck h0 f3' (hashStamp h0 f3) = false ∧ hashCheck h0 f3t (hashStamp h0 f3) = true ∧
+    hashCheck h0 .absent (hashStamp h0 f3) = false ∧ hashCheck h0 f3 (hashStamp h0 .absent) = false ∧
+    hashCheck h0 f0 (hashStamp h0 .absent) = false := by decide
+example : hashCheck h0 d1 (hashStamp h0 d2) = false ∧ hashCheck h0 d0 (hashStamp h0 d2) = false ∧
+    hashCheck h0 (.dir [[97], [98]] 999) (hashStamp h0 d2) = true := by decide
+-- the hypotheses of `C13_hash_dir_names` are satisfiable by these listings
+example : (∀ n ∈ [[97], [98]], (0 : Nat) ∉ n) ∧ (∀ n ∈ [[97, 98]], (0 : Nat) ∉ n) := by decide
+example : dirBytes [[97], [98]] = [97, 0, 98, 0] ∧ dirBytes [[97, 98]] = [97, 98, 0] := by decide
+-- the NUL-freeness hypothesis is needed: with a NUL inside a name the listings collide
+example : dirBytes [[97, 0, 98]] = dirBytes [[97], [98]] ∧ [[97, 0, 98]] ≠ [[97], [98]] := by
+  decide
+-- kind change file <-> directory is not claimed: this one is *not* detected, for any hash
+example : hashCheck h0 (.file [97, 0, 98, 0] 1) (hashStamp h0 d2) = true := by decide
+
+/-- the unrepaired directory hash input (defect F2): names concatenated without terminator -/
+private def dirBytesUnterminated (names : List (List Nat)) : List Nat := names.flatMap id
+
+/-- WITHOUT the terminator the listings `{"a","b"}` and `{"ab"}` collide, so no hash function
+whatsoever could tell them apart; with the terminator they differ. -/
+example : dirBytesUnterminated [[97], [98]] = dirBytesUnterminated [[97, 98]] ∧
+    [[97], [98]] ≠ [[97, 98]] ∧ dirBytes [[97], [98]] ≠ dirBytes [[97, 98]] := by decide
+
+-- reader left at the start
+example : (hashStampReader h0 (openRead f3)).2 = { st := f3, pos := 0 } := by decide
+example : ((hashStampReader h0 (openRead f3)).2.readToEnd).1 = [104, 105, 33] := by decide
+-- the hashing really moved the reader to the end before the rewind
+example : ((openRead f3).readToEnd).2.pos = 3 := by decide
+example : (hashStampReader h0 { st := f3, pos := 2 }).2.pos = 0 ∧
+    ((hashStampReader h0 { st := f3, pos := 2 }).2.readToEnd).1 = [104, 105, 33] := by decide
+example : (existsStampReader { st := f3, pos := 2 }).2 = { st := f3, pos := 2 } ∧
+    (modifiedStampReader { st := f3, pos := 2 }).2 = { st := f3, pos := 2 } := by decide
+
+-- writing
+example : openWrite d2 7 = .error .alreadyExists ∧ openWrite d0 7 = .error .alreadyExists :=
+  ⟨rfl, rfl⟩
+example : openWrite .absent 7 = .ok (.file [] 7) ∧ openWrite f3 7 = .ok (.file [] 7) :=
+  ⟨rfl, rfl⟩
+example : hashStampWriter h0 (.file [] 7) = some 7 ∧ modifiedStampWriter (.file [] 7) = some 7 ∧
+    existsStampWriter (.file [] 7) = true := by decide
+
+end Examples
+
 end PieModel
